@@ -190,6 +190,89 @@ def suite_config(seed, tier):
     return r
 
 
+# ---------------------------------------------------------------- reset behaves like a fresh estimator
+def reset_violation(case):
+    """fit, re-configure, reset, re-configure, fit again: the clusters, centroids and the whole tree must be
+    those of an estimator freshly constructed with the configuration the reset one reports"""
+    import bblean.bitbirch as bbm
+    bbm._global_merge_accept = None
+    nf = case["nf"]
+    bb = hist.make_bb(case["cfg"])
+    data = {}
+    for op in case["before"]:
+        hist.apply_op(bb, op, data, nf)
+    bb.reset()
+    if bb.is_init or bb.num_fitted_fps != 0:
+        return "reset kept data"
+    data = {}
+    for op in case["between"]:
+        hist.apply_op(bb, op, data, nf)
+    kw = dict(threshold=bb.threshold, branching_factor=bb.branching_factor, merge_criterion=bb.merge_criterion)
+    if bb.tolerance is not None:
+        kw["tolerance"] = bb.tolerance
+    fresh = bbm.BitBirch(**kw)
+    d2 = {}
+    for op in case["after"]:
+        ok1, _ = hist.apply_op(bb, op, data, nf)
+        ok2, _ = hist.apply_op(fresh, op, d2, nf)
+        o1, o2 = hist.observe(bb, ok1, True), hist.observe(fresh, ok2, True)
+        if o1 != o2:
+            keys = [k for k in o1 if o1[k] != o2[k]]
+            return (f"after reset the estimator does not behave like one freshly constructed with the configuration "
+                    f"it reports ({kw}): {keys} differ after {op['op']}; e.g. cluster sizes "
+                    f"{[len(c) for c in o1['sorted']][:8]} vs {[len(c) for c in o2['sorted']][:8]}")
+    return None
+
+
+def gen_reset_case(rng):
+    nf = rng.choice([5, 8, 16])
+    cfg = hist.gen_cfg(rng)
+    protos = None
+
+    def fit(n):
+        nonlocal protos
+        rows, protos = hist.gen_fps(rng, n, nf, protos)
+        return {"op": "fit", "rows": rows, "labels": None, "form": rng.choice(["unpacked-array", "packed-array"]),
+                "bad_at": None}
+
+    def setcfg():
+        c = hist.gen_cfg(rng)
+        op = {"op": "setcfg", "crit": None, "tol": None, "thr": None, "bf": None}
+        if rng.random() < 0.5:
+            op["crit"], op["tol"] = c["crit"], c["tol"]
+        if rng.random() < 0.5:
+            op["thr"] = c["thr"]
+        if rng.random() < 0.6:
+            op["bf"] = rng.choice([2, 3, 4, 5, 10, 50])
+        return op
+    # the first fit is small (a root that never split) or large (a deep tree)
+    before = [fit(rng.choice([1, 2, 3, 5, 30]))] + [setcfg() for _ in range(rng.randint(0, 2))]
+    if rng.random() < 0.3:
+        before.append({"op": "recluster", "iters": 1, "extra": 0.0, "shuffle": False, "seed": 0, "stop_early": False})
+    between = [setcfg() for _ in range(rng.randint(0, 2))]
+    protos = None
+    after = [fit(rng.randint(5, 60))] + ([fit(rng.randint(1, 20))] if rng.random() < 0.4 else [])
+    return {"nf": nf, "cfg": cfg, "before": before, "between": between, "after": after}
+
+
+def suite_reset(seed, tier):
+    rng = random.Random(seed + 23)
+    r = Result("reset")
+    for _ in range(200 if tier == "quick" else 4000):
+        case = gen_reset_case(rng)
+        r.cases += 1
+        try:
+            v = reset_violation(case)
+        except Exception as e:
+            v = f"case could not run: {type(e).__name__}: {e}"[:240]
+        if v:
+            r.bad.append({"suite": "reset", "what": v, "case": case})
+    r.nontrivial = r.cases
+    r.stats = {"cases": r.cases}
+    r.samples = [{"ops_before_reset": ["fit", "setcfg*", "recluster?"], "after": ["setcfg*", "fit+"]}]
+    return r
+
+
 # ---------------------------------------------------------------- direct oracle (search)
 def c17_violation(rng):
     """one random probe of the C17 statements on the real code; returns text or None"""
@@ -335,6 +418,11 @@ def gen_log(rng):
 
 def search_c17(seed, tier, failures):
     for kind, d in failures:
+        if isinstance(d, dict) and "case" in d and d.get("suite") == "reset":
+            v = reset_violation(d["case"])
+            if v:
+                return {"violation": v, "reset_case": d["case"]}
+    for kind, d in failures:
         if isinstance(d, dict) and "calls" in d:
             v = log_violation(d["calls"])
             if v:
@@ -345,6 +433,12 @@ def search_c17(seed, tier, failures):
         v = log_violation(log)
         if v:
             return {"violation": v, "calls": [list(c) for c in log]}
+    rrng = random.Random(seed + 29)
+    for _ in range(300):
+        case = gen_reset_case(rrng)
+        v = reset_violation(case)
+        if v:
+            return {"violation": v, "reset_case": case}
     rng = random.Random(seed + 3)
     for _ in range(400 if tier == "quick" else 4000):
         st = rng.getstate()
@@ -358,6 +452,8 @@ def replay_c17(payload):
     fi = payload.get("failing_input")
     if not fi:
         return True
+    if "reset_case" in fi:
+        return reset_violation(fi["reset_case"]) is None
     if "calls" in fi:
         return log_violation(fi["calls"]) is None
     rng = random.Random(fi["rng_seed"])
